@@ -33,6 +33,7 @@ func init() {
 			{Name: "sort", Run: runSort},
 			{Name: "hist", Run: runHist},
 			{Name: "steporder", Run: runStepOrder},
+			{Name: "primitives", Run: runPrimitives},
 			{Name: "attrs", Run: runAttrs},
 			{Name: "stack", Run: runStack},
 			{Name: "access", Run: runAccess},
